@@ -72,6 +72,9 @@ def r2(c):
         c.ob('mismatch-discarded', hr.node not in reach, 'a frame with a different id never reaches handle_response: the loop waits for another frame', '', loc_of(b, ne_edges[0][1]))
         eff = [cs for cs in b.calls() if cs.node in reach and not (q.is_tracing(cs) or q.is_fmt(cs) or q.is_machinery(cs)) and effects.get(P).of_call(cs) - {'state', 'sync'}]
         c.ob('mismatch-no-effect', not eff, 'discarding a stale frame has no other effect', str([x.callee for x in eff]), loc_of(b, ne_edges[0][1]))
+        # ... and it does not end the transaction either: the request keeps waiting for its own reply (until its deadline)
+        rets_ = [('b', i_) for i_ in b.return_blocks() if ('b', i_) in reach]
+        c.ob('mismatch-keeps-waiting', not rets_ and nf.node in b.reach_set(ne_edges[0]), 'a frame with a different id does not fail (or complete) the outstanding request: from the mismatch edge the only way on is back to next_frame', 'returns reachable without a new frame: %d' % len(rets_), loc_of(b, ne_edges[0][1]))
     if some and eq_edges:
         # handle_response is dominated by (None edge) or (eq edge): remove both and it must become unreachable from the frame
         reach = b.reach_set(nf.ret, avoid=set(none) | set(eq_edges))
